@@ -26,7 +26,7 @@ package udp
 //@       header[3] == byteof(crc4(header[4], header[5], header[6], header[7]), 0)
 
 //@ func parseHeader
-//@   prop C12 C09
+//@   prop C12 C09 C13
 //@   nopanic
 //@   modifies nothing
 //@   requires len(header) == 8
